@@ -27,8 +27,10 @@ META = dict(
                 'decrypt-then-encrypt on one object (several objects from one factory, whole session_pool requests presenting the same '
                 'cookie and saving the same / prefix-sharing data) are run on the real code; the model must reproduce every issued byte '
                 'from the recovered nonce, and the oracle checks IV freshness / own-chain discipline on the cookies alone.'),
-    level_note=('Trusted: Coq kernel; ExtrOcamlBasic extraction; the hand model of the C++ control flow (tied by correspondence only: '
-                'the anchored functions contain no loop-free integer leaf that tools/cxx2v.py can translate); unforgeability of HMAC and '
+    level_note=('Trusted: Coq kernel; ExtrOcamlBasic extraction; the hand model of the C++ control flow (tied by correspondence, except: '
+                'crypto::key::from_hex translated by tools/cxx2v.py, and hmac_cipher::equal -- the tag comparator of both encryptors -- whose '
+                'loop body and return test are translated from the current source inside a rigid byte-loop frame and proved in '
+                'coq/C05/LinkEqual.v to be an equality test of all bytes = the model ct_equal); unforgeability of HMAC and '
                 'indistinguishability of AES-CBC are assumptions, not theorems (the confidentiality sentence of the property is covered '
                 'only by the structural lemmas on IV chaining and by pairwise-distinctness checks on the real cipher texts); the harness '
                 'reads session_interface::temp_cookie_ through a private-access define; the openssl command line tool (enc -aes-*-ecb) '
@@ -40,6 +42,57 @@ GEN = {
     # crypto::key::from_hex (hex digit value used by key::set_hex for every configured key)
     'Gen_c05key': dict(src='src/crypto.cpp', functions=[('from_hex', 'g_key_from_hex')]),
 }
+
+# hmac_cipher::equal (the comparator of BOTH encryptors) is a loop, which tools/cxx2v.py does not translate.  Rigid statement tie:
+# the function must have exactly the byte-loop frame below; its loop BODY and its RETURN expression are then copied verbatim into
+# two loop-free functions of a generated translation unit, translated by cxx2v, and coq/C05/Link.v proves that folding the
+# translated step over two byte strings of equal length and applying the translated test is list equality.  An accumulator that
+# can cancel (xor, wrapping sums), that is one-directional, or any other frame breaks the tie.
+EQUAL_FRAME = re.compile(
+    r'bool hmac_cipher::equal\(void const \*a,void const \*b,size_t n\) \{ '
+    r'char const \*left = static_cast<char const \*>\(a\); '
+    r'char const \*right = static_cast<char const \*>\(b\); '
+    r'size_t diff = 0; '
+    r'for\(size_t i=0;i<n;i\+\+\) \{ (?P<body>[^{}]*) \} '
+    r'return (?P<ret>[^;{}]*); \} '
+    r'bool hmac_cipher::decrypt\(')
+
+
+def equal_tie_spec():
+    """write the translation unit for the tie of hmac_cipher::equal from /repo's CURRENT source and return its cxx2v spec"""
+    d = os.path.join(vlib.WORK, 'gen-src')
+    os.makedirs(d, exist_ok=True)
+    tu = os.path.join(d, 'C05_equal_tu.cpp')
+    why = None
+    try:
+        src = open(os.path.join(vlib.REPO, 'src/hmac_encryptor.cpp')).read()
+        src = re.sub(r'//[^\n]*', ' ', src)
+        src = re.sub(r'/\*.*?\*/', ' ', src, flags=re.S)
+        m = EQUAL_FRAME.search(' '.join(src.split()))
+        if not m:
+            why = 'hmac_cipher::equal no longer has the byte-loop frame (left/right char pointers, size_t diff = 0, one for loop over i<n, one return)'
+        else:
+            body = m.group('body').replace('left[i]', 'l').replace('right[i]', 'r')
+            body = re.sub(r'\bdiff\+\+\s*;', 'diff += 1;', body)
+            body = re.sub(r'\+\+diff\s*;', 'diff += 1;', body)
+            ret = m.group('ret')
+            ids = set(re.findall(r'[A-Za-z_]\w*', body))
+            if not ids <= {'l', 'r', 'diff', 'if', 'else'} or '[' in body or set(re.findall(r'[A-Za-z_]\w*', ret)) - {'diff'}:
+                why = 'the loop body / return of hmac_cipher::equal uses something else than left[i], right[i] and diff'
+    except OSError as e:
+        why = 'cannot read src/hmac_encryptor.cpp: %s' % e
+    if why:
+        txt = '#error "C05 tie: %s"\n' % why
+    else:
+        txt = ('// GENERATED by checks/C05.py from src/hmac_encryptor.cpp (hmac_cipher::equal): loop body and return expression verbatim\n'
+               '#include <stddef.h>\n'
+               'size_t c05_equal_step(size_t diff_in,char l,char r)\n{\n\tsize_t diff = diff_in;\n\t%s\n\treturn diff;\n}\n'
+               'bool c05_equal_done(size_t diff)\n{\n\treturn %s;\n}\n' % (body, ret))
+    vlib.write_if_changed(tu, txt)
+    return {'Gen_c05equal': dict(src=tu, functions=[('c05_equal_step', 'g_equal_step'), ('c05_equal_done', 'g_equal_done')])}
+
+
+GEN.update(equal_tie_spec())
 
 ALGS = ['md5', 'sha1', 'sha224', 'sha256', 'sha384', 'sha512']
 DLEN = dict(md5=16, sha1=20, sha224=28, sha256=32, sha384=48, sha512=64)
@@ -1136,6 +1189,60 @@ def fam_blocks(i, clen, dl):
     return a
 
 
+def fam_tag(i, clen, dl, rng, mode):
+    """changes of the TAG in two or more places (body untouched): the comparison of the tag must be an equality test of ALL its
+    bytes -- accumulators that can cancel (xor of words, sums mod 2^k), that look at one direction only, or that skip a lane are
+    visible only for such candidates.  mode: 'sample' | 'samebit' (all same-bit pairs) | 'all' (every pair of single-bit flips)"""
+    t0 = clen - dl
+    a = []
+    # the same bit flipped in two tag bytes: all pairs at offsets equal mod 4 (hence also mod 8 / 2 / 1 lanes), or all pairs
+    lanes = [(p, q) for p in range(dl) for q in range(p + 1, dl) if (q - p) % 4 == 0]
+    anyp = [(p, q) for p in range(dl) for q in range(p + 1, dl) if (q - p) % 4 != 0]
+    same = ['bflip2:%d:%d:%d:%d:%d' % (i, t0 + p, b, t0 + q, b) for p, q in lanes for b in range(8)]
+    same_any = ['bflip2:%d:%d:%d:%d:%d' % (i, t0 + p, b, t0 + q, b) for p, q in anyp for b in range(8)]
+    if mode == 'all':
+        bits = [(p, b) for p in range(dl) for b in range(8)]
+        a += ['bflip2:%d:%d:%d:%d:%d' % (i, t0 + p1, b1, t0 + p2, b2) for x, (p1, b1) in enumerate(bits) for (p2, b2) in bits[x + 1:]]
+    elif mode == 'samebit':
+        a += same + same_any
+    else:
+        a += same if len(same) <= 330 else rng.sample(same, 330)
+        a += rng.sample(same_any, min(len(same_any), 120))
+        for _ in range(60):
+            p1, p2 = rng.sample(range(dl), 2)
+            a.append('bflip2:%d:%d:%d:%d:%d' % (i, t0 + p1, rng.randrange(8), t0 + p2, rng.randrange(8)))
+        a.append('bflip2:%d:%d:%d:%d:%d' % (i, t0, 0, t0, 7))                   # two bits of one byte
+    # the same difference in two lanes: patterns whose word / half-word / byte XOR (and whose byte sum mod 256) is zero
+    for w in (2, 4, 8):
+        for _ in range(4):
+            pat = rb(rng, w)
+            for off in sorted(set([0, dl - 2 * w, rng.randrange(0, dl - 2 * w + 1) // w * w])):
+                if off >= 0:
+                    a.append('bxor:%d:%d:%s' % (i, t0 + off, hexs(pat + pat)))
+            if dl >= 3 * w:
+                a.append('bxor:%d:%d:%s' % (i, t0, hexs(pat + bytes(w) + pat)))
+    for x in (1, 0x80, 0xff, 0x55):
+        a.append('bxor:%d:%d:%s' % (i, t0, hexs(bytes([x]) * dl)))                # every byte changed alike (dl is even)
+        a.append('bxor:%d:%d:%s' % (i, t0, hexs(bytes([x, x]))))
+        a.append('bxor:%d:%d:%s' % (i, t0 + dl - 5, hexs(bytes([x, 0, 0, 0, x]))))
+        a.append('bxor:%d:%d:%s' % (i, t0, hexs(bytes([x]) * 4 + bytes([(256 - x) & 255]) * 4)))
+    a.append('bxor:%d:%d:%s' % (i, t0, hexs(bytes([1] + [0] * (dl - 2) + [1]))))
+    # tag bytes / words / halves exchanged or rotated (a multiset-preserving change of the tag)
+    seg = lambda x, y: '%d,%d,%d' % (i, t0 + x, t0 + y)
+    body = '%d,0,%d' % (i, t0)
+    for w in (1, 2, 4, 8):
+        nw = dl // w
+        pairs = [(x, y) for x in range(nw) for y in range(x + 1, nw)]
+        for x, y in (pairs if len(pairs) <= 12 or mode != 'sample' else rng.sample(pairs, 12)):
+            order = list(range(nw))
+            order[x], order[y] = order[y], order[x]
+            a.append('b:' + '+'.join([body] + [seg(k * w, k * w + w) for k in order] + ([seg(nw * w, dl)] if nw * w < dl else [])))
+        a.append('b:' + '+'.join([body] + [seg(k * w, k * w + w) for k in list(range(1, nw)) + [0]] + ([seg(nw * w, dl)] if nw * w < dl else [])))
+        a.append('b:' + '+'.join([body] + [seg(k * w, k * w + w) for k in reversed(range(nw))] + ([seg(nw * w, dl)] if nw * w < dl else [])))
+    a.append('b:' + '+'.join([body, seg(dl // 2, dl), seg(0, dl // 2)]))
+    return a
+
+
 def fam_splice(i, j, cli, clj, dl, rng, aligned):
     a = []
     cuts_i = range(0, cli + 1, 16) if aligned else sorted(set([0, 1, 7, 8, 9, cli - dl - 1, cli - dl, cli - dl + 1, cli - 1, cli] +
@@ -1221,6 +1328,7 @@ def gen_scn(ctx):
             cases.append('scn %s %s now=%d %s %s' % (cfgA, cfgB, now, ' '.join(saves), ' '.join(part)))
 
     # 1. every single-bit flip / truncation / extension of a small valid cookie, per configuration
+    tag_all_done = set()
     for ci_, cfg in enumerate(cfgs):
         now = rng.choice([0, 1, 1000000000, 2 ** 31, 2 ** 32 + 5, 1700000000])
         plen = rng.choice([0, 1, 3, 4, 5, 12]) if ctx.quick() else rng.choice(PAYLOAD_EDGES)
@@ -1238,6 +1346,17 @@ def gen_scn(ctx):
         cands += fam_ext(0, rng, clen)
         if not cfg.startswith('hmac/'):
             cands += fam_blocks(0, clen, dl)
+        # the tag changed in two or more places: every pair of single-bit flips for the 16-byte tags of the first hmac and the
+        # first aes configuration (in thorough: for a quarter of the configurations with tags of at most 20 bytes), all same-bit pairs in thorough
+        fam = cfg.split('/')[0]
+        if dl == 16 and fam not in tag_all_done and fam != 'aesk':
+            tag_all_done.add(fam)
+            tmode = 'all'
+        elif not ctx.quick():
+            tmode = 'all' if dl <= 20 and ci_ % 4 == 0 else 'samebit'
+        else:
+            tmode = 'sample'
+        cands += fam_tag(0, clen, dl, rng, tmode)
         cands += fam_raw(rng, dl, not cfg.startswith('hmac/'))
         cands += fam_forged(rng, cfg, now)
         emit(cfg, '=', now, [save], cands)
@@ -1277,6 +1396,11 @@ def gen_scn(ctx):
         cands = fam_splice(0, 1, c0, c1, dl, rng, aes) + fam_splice(1, 0, c1, c0, dl, rng, aes)
         if aes:
             cands += fam_splice(0, 1, c0, c1, dl, rng, False)
+        # body of one cookie with the tag of the other, its 4-byte words rotated / reversed / pairwise exchanged
+        for (bi, bl_), (tj, tl_) in (((0, c0), (1, c1)), ((1, c1), (0, c0))):
+            words = ['%d,%d,%d' % (tj, tl_ - dl + 4 * k, tl_ - dl + 4 * k + 4) for k in range(dl // 4)]
+            for order in (words[1:] + words[:1], list(reversed(words)), [words[k ^ 1] if (k ^ 1) < len(words) else words[k] for k in range(len(words))]):
+                cands.append('b:%d,0,%d+%s' % (bi, bl_ - dl, '+'.join(order)))
         emit(cfg, '=', now, saves, cands)
 
     # 4. cross-key / cross-algorithm transplants
@@ -1623,7 +1747,7 @@ def cand_kind(tok):
         if re.fullmatch(r'\d+,0,\$\+h[0-9a-f]*', body) or body.startswith('h'):
             return 'extension'
         return 'splice'
-    return {'bflip': 'bitflip-cipher', 'cflip': 'bitflip-text', 'raw': 'arbitrary', 'fa': 'forged-mac', 'ft': 'forged-mac'}.get(k, k)
+    return {'bflip': 'bitflip-cipher', 'bflip2': 'two-bitflips-tag', 'bxor': 'xor-pattern-tag', 'cflip': 'bitflip-text', 'raw': 'arbitrary', 'fa': 'forged-mac', 'ft': 'forged-mac'}.get(k, k)
 
 
 def run_differential(ctx, cases, exe, mexe):
@@ -1839,6 +1963,7 @@ def run_differential(ctx, cases, exe, mexe):
 
 
 def run(ctx):
+    GEN.update(equal_tie_spec())
     errs = vlib.gen_coq(GEN)
     for n, e in errs:
         ctx.broke('translator cxx2v failed on %s (tie to source broken)' % n, e)
@@ -1852,7 +1977,8 @@ def run(ctx):
         'computes HMAC tags and raw AES block decryptions through cppcms::crypto for the model; forged-MAC candidates)',
         'openssl command line tool (enc -d -aes-{128,192,256}-ecb -nopad): independent AES for the IV oracle and the raw block values',
         'checks/C05.py (generators, oracle, specification-side key material and base64url/save_data codecs in Python)',
-        'hand model of the C++ control flow (coq/C05/Defs.v), tied by correspondence only (no cxx2v leaf in the anchored functions)',
+        'hand model of the C++ control flow (coq/C05/Defs.v), tied by correspondence; source ties: crypto::key::from_hex (cxx2v) and '
+        'hmac_cipher::equal (loop body + return test via cxx2v inside a rigid frame checked textually by checks/C05.py, coq/C05/LinkEqual.v)',
         'base64url model of C15 (coq/C15/Defs.v, linked to src/base64.cpp by C15)']
     ctx.assumptions = [
         'HMAC is an arbitrary function with fixed output length dlen(a); AES block functions satisfy D k (E k b) = b and map 16 bytes to 16 bytes '
@@ -1891,7 +2017,10 @@ def run(ctx):
         'loaded through session_cookies::load: the issued cookie itself, EVERY single-bit flip of its cipher text and of its text, EVERY '
         'truncation, extensions by 1..17 bytes and by whole blocks, block swaps/drops/duplications, splices of two valid cookies at every '
         'block boundary, transplants to encryptors with a flipped key bit / other hash / other cipher / equivalent key material, arbitrary '
-        'and non-canonical base64 strings, and cipher texts with a correct MAC but malformed structure (forged with the key, to drive the '
+        'and non-canonical base64 strings, the TAG changed in two or more places with the body untouched (pairs of single-bit flips: all pairs '
+        'for 16-byte tags of one hmac and one aes configuration, same-bit pairs at offsets equal mod 4 and others sampled elsewhere, all of '
+        'them in thorough; exchanged / rotated / reversed tag bytes, half-words, words and halves; XOR patterns with zero word-XOR and zero '
+        'byte sum; the permuted tag of another cookie), and cipher texts with a correct MAC but malformed structure (forged with the key, to drive the '
         'checks after MAC verification). Object histories: saves and loads interleaved on one encryptor object (loading cookies OTHER than '
         'the one just issued, accepted forged ones, rejected ones), several objects made by one factory (`new`, `obj:k`) that are presented '
         'the same cookie and save the same or prefix-sharing data; pool lines continue with whole requests (Q: new session_interface = new '
